@@ -778,7 +778,17 @@ func validateFieldMapping(predecessorType reflect.Type, successorType reflect.Ty
 	return &handlerPair{
 		invoke: checker,
 		transform: func(input streamReader) streamReader {
-			return packStreamReader(schema.StreamReaderWithConvert(input.toAnyStreamReader(), checker))
+			// keep the chunk type map[string]any: the field mapping converter that follows requires it
+			s, ok := unpackStreamReader[map[string]any](input)
+			if !ok {
+				return packStreamReader(schema.StreamReaderWithConvert(input.toAnyStreamReader(), checker))
+			}
+			return packStreamReader(schema.StreamReaderWithConvert(s, func(v map[string]any) (map[string]any, error) {
+				if _, err := checker(v); err != nil {
+					return nil, err
+				}
+				return v, nil
+			}))
 		},
 	}, nil
 }
